@@ -35,8 +35,20 @@ LAYOUTS = ["plain", "plain", "plain", "plain", "no-global-keyword", "sp-colon", 
            "tabs"]
 
 
-def gen_patterns(r, csyms, cxxsyms, n):
-    """n pattern entries: ('c', kind, text) or ('cxx', kind, text). kind: exact | glob | star"""
+def gen_patterns(r, csyms, cxxsyms, n, used):
+    """n pattern entries: ('c', kind, text) or ('cxx', kind, text). kind: exact | glob | star.
+    `used`: patterns already present in the same kind of section of any node - GNU ld rejects a
+    pattern that occurs twice among the globals (or twice among the locals) of a script."""
+    out = []
+    for p in _gen_patterns(r, csyms, cxxsyms, n):
+        if (p[0], p[2]) in used:
+            continue
+        used.add((p[0], p[2]))
+        out.append(p)
+    return out
+
+
+def _gen_patterns(r, csyms, cxxsyms, n):
     out = []
     for _ in range(n):
         c = r.random()
@@ -46,7 +58,7 @@ def gen_patterns(r, csyms, cxxsyms, n):
             if r.random() < 0.5:
                 out.append(("cxx", "exact", dem))
             else:
-                cut = r.choice([dem.split("(")[0][:-1] + "*", "ns::*", dem.split("(")[0] + "*", "*(int)"])
+                cut = r.choice([dem.split("(")[0][:-1] + "*", "ns::*", dem.split("(")[0] + "*", "*pp*"])
                 out.append(("cxx", "glob", cut))
         elif c < 0.55:
             out.append(("c", "exact", r.choice(csyms) if r.random() < 0.85 else r.choice(C_POOL)))
@@ -82,10 +94,12 @@ def gen_case(r):
     for i in range(nnodes):
         names.append(r.choice([f"V{i + 1}", f"LIB_{i + 1}.0", f"VERS_{i + 1}"]))
     nodes = []
+    used_g, used_l = set(), set()
     for i in range(nnodes):
-        g = gen_patterns(r, csyms, cxxsyms, r.choice([0, 1, 1, 2, 3, 4]))
-        l = gen_patterns(r, csyms, cxxsyms, r.choice([0, 0, 0, 1, 2]))
-        if r.random() < (0.5 if i == 0 else 0.12):
+        g = gen_patterns(r, csyms, cxxsyms, r.choice([0, 1, 1, 2, 3, 4]), used_g)
+        l = gen_patterns(r, csyms, cxxsyms, r.choice([0, 0, 0, 1, 2]), used_l)
+        if r.random() < (0.5 if i == 0 else 0.12) and ("c", "*") not in used_l:
+            used_l.add(("c", "*"))
             l.append(("c", "star", "*"))
         parents = []
         if i > 0 and r.random() < 0.6:
@@ -412,9 +426,9 @@ def classify(case, name, lstate, wstate):
 
 def link(ctx, linker, d, obj, script, out, dep):
     tools.fresh(out)
-    args = ["-shared", "--hash-style=both", obj, "--version-script=" + script, "-o", out, "-soname", "libc32.so"]
+    args = ["-shared", "--hash-style=both", "--no-gc-sections", obj, "--version-script=" + script, "-o", out, "-soname", "libc32.so"]
     if dep:
-        args.insert(3, dep)
+        args.insert(4, dep)
     return tools.link(linker, args, cwd=d, timeout=120), args
 
 
@@ -427,6 +441,7 @@ def consumer_list(case, lmap, ids, alias):
             lines.append(f"A {nm}")
             continue
         default = [v for v, h in st if not h and v != "*local*"]
+        versioned = all(v not in ("", "*local*") and not v.startswith("need:") for v, h in st)
         for v, h in st:
             if v.startswith("need:") or v == "*local*":
                 continue
@@ -440,7 +455,8 @@ def consumer_list(case, lmap, ids, alias):
                 lines.append(f"V {nm} {v} {ident}")
                 if not h and len(default) == 1:
                     lines.append(f"D {nm} {ident}")
-        lines.append(f"W {nm} NO_SUCH_VERSION")
+        if versioned:    # glibc lets an unversioned definition satisfy any requested version
+            lines.append(f"W {nm} NO_SUCH_VERSION")
     return lines
 
 
@@ -468,7 +484,7 @@ def run_case(ctx, cid, case):
     if lres.timed_out:
         return ctx.inconclusive("reference link timed out")
     if not lres.ok:
-        ctx.note_set("ld-reject", f"{layout}: " + (lres.errtext().strip().splitlines() or ["?"])[0][-120:])
+        ctx.note_set("ld-reject", f"{layout}: " + (lres.errtext().strip().splitlines() or ["?"])[0][-90:] + " <<" + text[:150] + ">>")
         ctx.note("ld-rejects-layout:" + layout)
         # does wild crash on it?
         wres, wargs = link(ctx, "wild", d, obj, script, os.path.join(d, "libwild.so"), dep)
